@@ -56,6 +56,77 @@ class MustStoreRow(MustAnalysis):
         self.missing = [s for s in states_out if "counted" in s.tokens and "row" not in s.tokens]
 
 
+def check_normalisation_axes(p, report, rule):
+    from ..paths import Const
+    mod = p.modules["skactiveml.utils._multi_annot"]
+    EXPECT = {"true": "1", "pred": "0", "all": None}
+    n = 0
+    for fn in mod.functions.values():
+        sites = []
+        for st in ast.walk(fn.node):
+            v = st.value if isinstance(st, (ast.Assign, ast.Return)) and getattr(st, "value", None) is not None else None
+            if v is None:
+                continue
+            for d in ast.walk(v):
+                if isinstance(d, ast.BinOp) and isinstance(d.op, ast.Div) and isinstance(d.right, ast.Call) \
+                        and c01.callname(d.right) in ("sum", "np.sum") :
+                    opnd = d.right.func.value if isinstance(d.right.func, ast.Attribute) and not (
+                        isinstance(d.right.func.value, ast.Name) and d.right.func.value.id in ("np", "numpy")) else (
+                        d.right.args[0] if d.right.args else None)
+                    if opnd is not None and ast.unparse(opnd) == ast.unparse(d.left):
+                        ax = next((ast.unparse(k.value) for k in d.right.keywords if k.arg == "axis"), None)
+                        sites.append((st, d, ax))
+        if not sites:
+            continue
+        pname = next((a for a in fn.all_param_names() if a == "normalize"), None)
+        if pname is None:
+            continue
+        site_ids = {id(st): (d, ax) for st, d, ax in sites}
+
+        class Modes(MustAnalysis):
+            def __init__(self, fnode):
+                super().__init__(fnode)
+                self.seen = {}
+
+            def _apply(self, stmt, states, pseudo=None):
+                if pseudo is None and id(stmt) in site_ids:
+                    for st_ in states:
+                        self.seen.setdefault(id(stmt), []).append(st_.facts)
+                return super()._apply(stmt, states, pseudo)
+
+            def stmt(self, s_, states):
+                if isinstance(s_, ast.Return) and id(s_) in site_ids:
+                    for st_ in states:
+                        self.seen.setdefault(id(s_), []).append(st_.facts)
+                return super().stmt(s_, states)
+        m = Modes(fn.node).run()
+        for st, d, ax in sites:
+            wrong = []
+            for facts in m.seen.get(id(st), []):
+                allowed = facts.allowed.get(pname)
+                modes = [c.v for c in allowed] if allowed is not None else []
+                for md in modes:
+                    if md in EXPECT and EXPECT[md] != ax:
+                        wrong.append(f"normalize={md!r} divides by the sum over axis {ax} (expected {EXPECT[md]})")
+            n += 1
+            report.add(rule, fn.qual, f"`{norm_stmt(d, 50)}` divides along the axis of its mode", f"{fn.file}:{st.lineno}", not wrong,
+                       detail="axis agrees with every mode that reaches it" if not wrong else "; ".join(sorted(set(wrong))))
+        # transposition of the counted matrix
+        cms = {t.id for x in ast.walk(fn.node) if isinstance(x, ast.Assign) and isinstance(x.value, ast.Call)
+               and c01.callname(x.value) == "confusion_matrix" for t in x.targets if isinstance(t, ast.Name)} | \
+              ({a for a in fn.all_param_names() if a in ("cm",)})
+        tr = [x for x in ast.walk(fn.node) if (isinstance(x, ast.Attribute) and x.attr == "T" and isinstance(x.value, ast.Name) and x.value.id in cms)
+              or (isinstance(x, ast.Call) and c01.callname(x) in ("transpose", "np.transpose", "swapaxes") and any(
+                  isinstance(a, ast.Name) and a.id in cms for a in list(x.args) + ([x.func.value] if isinstance(x.func, ast.Attribute) else [])))]
+        if cms:
+            n += 1
+            report.add(rule, fn.qual, "the counted matrix is never transposed", f"{fn.file}:{(tr[0] if tr else fn.node).lineno}", not tr,
+                       detail="orientation [true class, predicted class] kept" if not tr else
+                       f"`{ast.unparse(tr[0])[:40]}` swaps true and predicted classes of the matrix that is stored")
+    if n == 0:
+        raise AnalysisError("ext_confusion_matrix: no normalisation site found")
+
+
 def run(p, report, tier):
     report.rule("R17.1", "ext_confusion_matrix: on every feasible path through the per-annotator loop body on which the "
                 "annotator's confusion counts are computed, the output slice conf_matrices[a] is stored (path facts "
@@ -256,6 +327,15 @@ def run(p, report, tier):
         da = DefiniteAssignment(_it(fn.node)).run()
         report.add("R1.7", fn.qual, "all locals bound before use", f"{fn.file}:{fn.node.lineno}", not da.reports,
                    detail="; ".join(f"{k} unbound" for k in da.reports))
+    report.rule("R17.7", "each normalisation mode of ext_confusion_matrix divides along its own axis ('true': the sum over "
+                "axis 1, 'pred': over axis 0, 'all': the total) on every path on which that mode is possible, and the counted "
+                "matrix (rows = true class, columns = predicted class) is never transposed on its way into the result",
+                floor=3)
+    check_normalisation_axes(p, report, "R17.7")
+    report.rule("R17.8", "votes are only counted for labels that ARE classes: the encoder all three utilities go through "
+                "looks labels up exactly (shared with C16 R16.9)", floor=1)
+    from . import c16 as _c16x
+    _c16x.check_exact_lookup(p, report, "R17.8")
     report.rule("R17.6", "the mask of missing entries all three aggregation utilities rely on is right for every legal "
                 "sentinel and dtype: is_unlabeled has exactly one NaN-test path and one equality path, dispatched on the "
                 "sentinel being NaN (shared with C16 R16.2)", floor=3)
